@@ -19,6 +19,8 @@ pub struct Diag {
     pub level: String,
     pub code: String,
     pub message: String,
+    /// some primary span lies inside the output of derive_ex / derive(Ex)
+    pub in_macro: bool,
 }
 
 #[derive(Clone, Debug, Default)]
@@ -202,7 +204,23 @@ fn compile_file(dir: &PathBuf, name: &str, cases: &[Case], idxs: &[usize], opts:
                 }
             }
         }
-        let d = Diag { level, code, message };
+        // located in derive_ex's output?
+        fn in_dx(sp: &Value) -> bool {
+            let mut cur = sp;
+            loop {
+                let ex = &cur["expansion"];
+                if ex.is_null() {
+                    return false;
+                }
+                let name = ex["macro_decl_name"].as_str().unwrap_or("");
+                if name.contains("derive_ex") || name.contains("derive(Ex)") || name.contains("Ex)") {
+                    return true;
+                }
+                cur = &ex["span"];
+            }
+        }
+        let in_macro = v["spans"].as_array().map(|a| a.iter().any(|sp| in_dx(sp))).unwrap_or(false);
+        let d = Diag { level, code, message, in_macro };
         let mut hit = None;
         for l in &lines {
             if let Some(k) = ranges.iter().position(|r| r.0 <= *l && *l <= r.1) {
